@@ -20,7 +20,8 @@ def case_txt(c):
 
 
 def replay_of(case, w=None, extra=None):
-    d = {"id": case["id"], "lox": render_lox(case), "terms": case["terms"]}
+    d = {"id": case["id"], "lox": render_lox(case), "terms": case["terms"],
+         "case_json": {k: v for k, v in case.items() if k != "gen"}}
     if w is not None:
         d["input_terminal_numbers"] = w
         d["input"] = [("ERROR" if t == 1 else case["terms"][t - 2]) for t in w]
@@ -153,6 +154,8 @@ def c01(tier):
     cases = grams.curated("lang") + grams.curated("err")[:6]
     # order-sensitivity and slow fixed points of the construction: the same grammars declared backwards, alias chains
     cases += grams.chain_family() + grams.order_variants(grams.curated("lang"), rng, reverse=True, shuffles=0 if quick else 2)
+    cases += grams.rename_variants(grams.curated("lang") + grams.self_nesting())
+    cases += grams.self_nesting()
     nrand = 60 if quick else 700
     cases += grams.random_grammars(seed(), nrand, prefix="rnd", sugar=0.3)
     cases += grams.random_grammars(seed() + 7919, nrand // 3, prefix="rnde", sugar=0.2, err=0.08)
@@ -161,6 +164,7 @@ def c01(tier):
     # C01 is about precedence-free grammars
     for c in cases:
         c["bounds"] = False
+    cases = replay_filter(cases)
     lox, mod, acc, runner = prepare(sc, cases)
     rejected = [c for c in cases if not c["gen"]["ok"]]
     bad_reject = [c for c in rejected if not c["gen"]["conflicts"] or c["gen"]["panic"]]
@@ -323,6 +327,7 @@ def c03(tier):
     cases += uni if not quick else uni[:len(grams.curated("lang")) + 20]
     for c in cases:
         c["bounds"] = False
+    cases = replay_filter(cases)
     X = explore(rep, sc, cases, lambda c: ["c03"], 400 if quick else 3000, 400 if quick else 3000,
                 False, rng, 10 if quick else 40)
     acc, truns = X["acc"], X["truns"]
@@ -362,6 +367,7 @@ def c16(tier):
         a = json.loads(json.dumps(c)); a["bounds"] = True; a["id"] = c["id"] + "+b"
         b = json.loads(json.dumps(c)); b["bounds"] = False; b["id"] = c["id"] + "-b"
         cases += [a, b]
+    cases = replay_filter(cases)
     X = explore(rep, sc, cases, lambda c: ["c16"] if c["bounds"] else ["c03", "c16n"],
                 300 if quick else 2500, 300 if quick else 2500, False, rng, 10 if quick else 40)
     acc, truns = X["acc"], X["truns"]
@@ -398,6 +404,7 @@ def c09(tier):
     cases = [c for c in cases if not any(T["k"] == "starF" for r in c["rules"] for p in r["prods"] for T in p["terms"])]
     for c in cases:
         c["bounds"] = False
+    cases = replay_filter(cases)
     X = explore(rep, sc, cases, lambda c: ["c09"], 500 if quick else 4000, 500 if quick else 4000,
                 True, rng, 6 if quick else 30, budget=80)
     acc, truns = X["acc"], X["truns"]
